@@ -731,7 +731,8 @@ def runSched {κ : Type} (cfg : Cfg κ) (wtFirst : Bool) : Nat → St κ → Lis
       let (tr, sf) := runSched cfg wtFirst fuel s'
       (e :: tr, sf)
 
-/-! ### The repaired writer (fix fb588a3) — the MAIN LINE of the model
+/-! ### The repaired writer (fix fb588a3) — the main line of the model for OPL / XML / PBF
+(for `debug` and `ids` see `Guards` / `fmtMachine` below: they still behave like `machine`)
 
 Since fb588a3 `OPLOutputFormat::write_buffer` / `XMLOutputFormat::write_buffer` return early
 when the buffer holds no node, way, relation or changeset
@@ -774,10 +775,76 @@ def Api.repair : Api → Api
 
 def Cfg.repair {κ : Type} (cfg : Cfg κ) : Cfg κ := { cfg with hdrEnc := cfg.hdrEnc.repair }
 
-/-- the Writer of the current tree: every script, through the repaired output formats -/
+/-- the Writer of the current tree for formats whose `write_buffer` is guarded (= `guardedMachine
+    ⟨true, true⟩`): every script, through the repaired output formats -/
 def repairedMachine {κ : Type} (cfg : Cfg κ) (k0 : κ) (os0 : OS) (script : List Api) :
     Machine (St κ) Ev :=
   machine cfg.repair k0 os0 (script.map Api.repair)
+
+/-! ### Per format, per path: who keeps a block that encodes to "" out of the queue
+
+The guard exists in two output formats only (`OPLOutputFormat::write_buffer`,
+`XMLOutputFormat::write_buffer`: `if (!contains_writable_objects(buffer)) return;`).
+`DebugOutputFormat::write_buffer` and `IDSOutputFormat::write_buffer` submit a pool task for
+EVERY buffer (`m_output_queue.push(m_pool.submit(DebugOutputBlock{…}))`), and their blocks
+encode a buffer without node/way/relation/changeset to the empty string, exactly like
+OPL/XML did before fb588a3.  `PBFOutputFormat::write_buffer` never submits a per-buffer block
+(it feeds the objects to its PrimitiveBlock, blobs are queued only when they hold ≥ 1 object);
+`BlackholeOutputFormat::write_buffer` does nothing.
+
+A buffer reaches `write_buffer` on two paths of the Writer (writer.hpp):
+  * `do_write(std::move(buffer))`  — the argument of operator()(Buffer&&) and the internal
+    buffer at close()/~Writer;
+  * `do_flush()` — the internal buffer of operator()(const Item&), handed over by flush(),
+    by operator()(Buffer&&) (which flushes first) and when the internal buffer is full.
+A guard could also live in these two functions (it does not in the current tree), so the
+model keeps one Boolean per path: effective guard = the Writer's ∨ the format's.  Which
+guards exist is read off the source on every run (Generated/C08Guards.lean, written by
+tools/props/c08.py) — `GuardTable` is that table. -/
+
+inductive Fmt where
+  | opl | xml | pbf | debug | ids | blackhole
+  deriving DecidableEq, Repr
+
+/-- is a block without writable objects kept out of the queue on the do_write / do_flush path? -/
+structure Guards where
+  doWrite : Bool
+  doFlush : Bool
+  deriving DecidableEq, Repr
+
+/-- what the source says (regenerated from /repo on every run) -/
+structure GuardTable where
+  writerDoWrite : Bool       -- Writer::do_write tests contains_writable_objects
+  writerDoFlush : Bool       -- Writer::do_flush tests contains_writable_objects
+  fmt : Fmt → Bool           -- the format's write_buffer returns early / never submits a per-buffer block
+
+def GuardTable.guards (T : GuardTable) (f : Fmt) : Guards :=
+  { doWrite := T.writerDoWrite || T.fmt f, doFlush := T.writerDoFlush || T.fmt f }
+
+def Enc.repairIf : Bool → Enc → Enc
+  | true, e => e.repair
+  | false, e => e
+
+/-- the guards applied to a call: `ib`/`full` of put/item/flush travel through do_flush, the
+    buffer argument of put and the internal buffer at close/dtor through do_write.  The
+    trailer strings of `write_end` (and the header, `Cfg.repair`) are never empty in any
+    format (XML: literal text; PBF: blobs; OPL/debug/ids/blackhole: no trailer). -/
+def Api.guard (g : Guards) : Api → Api
+  | .put ib e => .put (ib.map (Enc.repairIf g.doFlush)) (e.repairIf g.doWrite)
+  | .item f => .item (f.map (Enc.repairIf g.doFlush))
+  | .flush ib => .flush (ib.map (Enc.repairIf g.doFlush))
+  | .close ib e => .close (ib.map (Enc.repairIf g.doWrite)) e.repair
+  | .dtor ib e => .dtor (ib.map (Enc.repairIf g.doWrite)) e.repair
+
+/-- the Writer with the given guards -/
+def guardedMachine {κ : Type} (g : Guards) (cfg : Cfg κ) (k0 : κ) (os0 : OS) (script : List Api) :
+    Machine (St κ) Ev :=
+  machine cfg.repair k0 os0 (script.map (Api.guard g))
+
+/-- the Writer of the tree described by `T`, writing format `f` -/
+def fmtMachine {κ : Type} (T : GuardTable) (f : Fmt) (cfg : Cfg κ) (k0 : κ) (os0 : OS)
+    (script : List Api) : Machine (St κ) Ev :=
+  guardedMachine (T.guards f) cfg k0 os0 script
 
 /-- all threads have finished and the Writer is gone -/
 def St.terminated {κ : Type} (s : St κ) : Prop := s.destroyed = true
